@@ -7,10 +7,16 @@ Legs (all differential: extracted Model/Client.v vs the real code; monitors eval
            with SCCACHE_IGNORE_SERVER_IO_ERROR on/off and a succeeding/failing compiler
   server   scripted byte chunks (valid requests, garbage, oversized and truncated frames) on several connections
            to a LIVE real server while a bystander client compiles through it with real gcc
+  coldstart  no server on a fresh port, k in {1,2,6,12} real clients released together through a barrier (also right
+           after a SIGKILLed server): every client must start / find a server and deliver exit 0 + the true object;
+           each client's (start-up class, outcome) is looked up in the model's decision table (trace acceptance)
+  poison   ONE fresh real server: well-formed but unservable compile requests (real client or hand-built bincode
+           frame) FIRST, then ordinary requests for the SAME compiler path on other connections, which must be served
   kill     the real server SIGKILLed while its compiler is in a scripted phase (detection = before the first
            response / preprocessor / compiler), then a compile with no server running
 """
 from .. import pipeline
+from .. import sx
 from ..pipeline import Leg
 
 ID = 'C11'
@@ -20,13 +26,16 @@ REPO_BINS = ['sccache']
 THEOREMS = ['C11_never_false_success', 'C11_eof_after_ack_falls_back', 'C11_killed_while_answering',
             'C11_io_error_after_ack', 'C11_lost_before_ack', 'C11_complete_exchange_delivered',
             'C11_chunking_irrelevant', 'C11_connection_isolation', 'C11_only_shutdown_stops_the_server',
-            'C11_frame_decoder_total']
+            'C11_frame_decoder_total', 'C11_start_up_table', 'C11_addr_in_use_proceeds', 'C11_cold_start_delivers',
+            'C11_process_never_false_success', 'C11_failed_probe_does_not_poison']
 ASSUMPTIONS = [
     'which error kind the kernel reports to the client for a lost peer (clean EOF vs ECONNRESET) is an input of the model (the `ending` of the stream), not derived: observed in the kill leg (a SIGKILLed server that had read the whole request yields EOF) — the claim is PARTIAL there',
     'bytes written by the server before it dies are delivered to the client before the end-of-stream indication (TCP ordering; Linux keeps already queued data readable after an RST)',
     'the three responses that cannot occur in a compile exchange (Stats, DistStatus, ShuttingDown) are decoded through an oracle; every theorem quantifies over the oracle, the legs only send such payloads when they are too short to decode',
     'the local fallback is "the client spawns the original command and returns its status" (std::process); the compiler itself is not modelled: its exit status is a parameter',
     'the server is stopped only by the Shutdown RPC in this model; idle time-out and signals are outside it (C20)',
+    'cold start: which spawned server wins the port is not modelled (C20 does); the client-side decision on every ServerStartup report is, and the coldstart leg accepts every observed (report, outcome) pair against it',
+    'compiler map: whether a probe succeeds is a per-request input of the model (it runs with the request\'s environment); the map logic (None entries are never answered from, Some entries only with the current mtime) is modelled and proved',
 ]
 TRUSTED = [
     'hook: protocol::verif_{encode,decode}_{request,response} (thin wrappers around the same bincode::serialize/deserialize calls both ends use)',
@@ -509,6 +518,135 @@ def gen_kill(rng, tier):
     return out
 
 
+# ---------------------------------------------------------------- cold start leg
+
+def compare_coldstart(m, i):
+    """every client's (class, kind, exit) must be a row of the model's decision table"""
+    try:
+        table = {r[0]: (r[1], r[2]) for r in sx.loads(m)}
+        rows = sx.loads(i)
+        if not rows:
+            return False
+        return all(len(r) == 4 and table.get(r[0]) == (r[1], r[2]) for r in rows)
+    except Exception:
+        return False
+
+
+def monitor_coldstart(case, out):
+    k, after_kill = case
+    if not isinstance(out, list) or len(out) != k or not all(isinstance(r, list) and len(r) == 4 for r in out):
+        return ['the cold-start run did not complete normally: %r' % (out,)]
+    vs = []
+    for n, (cls, kind, code, ok) in enumerate(out):
+        if code != 0 or ok != 1:
+            vs.append('no server running, %d clients started together%s: client %d (%s) did not start/find a server '
+                      'and deliver the compile: %s, exit %r, correct object %r'
+                      % (k, ' after a killed server' if after_kill else '', n, cls.decode(), kind.decode(), code, ok))
+    if not any(r[0] == b'started' for r in out):
+        vs.append('no client reports having started the server although none was running')
+    return vs[:3]
+
+
+def gen_coldstart(rng, tier):
+    reps = 4 if tier == 'thorough' else 1
+    out = []
+    for _ in range(reps):
+        for k in (1, 2, 6, 12):
+            out.append([k, 0])
+        out.append([1, 1])
+        out.append([12, 1])
+    out.append([12, 0])
+    return out
+
+
+def stats_coldstart(case, out):
+    ks = ['k=%d' % case[0]]
+    try:
+        for r in out:
+            ks.append('class=' + r[0].decode())
+    except Exception:
+        ks.append('abnormal')
+    return ks
+
+
+# ---------------------------------------------------------------- poison leg
+
+BAD_HOWS = {
+    # how: (compilers it applies to, ways to send it)
+    b'gcc_exec_prefix': ((b'real', b'wrapper'), (b'client', b'frame')),   # GCC_EXEC_PREFIX=/nonexistent/: probe fails
+    b'wrapper_fail': ((b'wrapper',), (b'client', b'frame')),              # request env makes the compiler exit 1
+    b'broken_exe': ((b'wrapper',), (b'client', b'frame')),                # executable unusable now, repaired afterwards
+    b'bad_cwd': ((b'real', b'wrapper'), (b'frame',)),                     # working directory does not exist
+    b'unsupported_exe': ((b'real', b'wrapper'), (b'client', b'frame')),   # /bin/true
+    b'nonexistent_exe': ((b'real', b'wrapper'), (b'frame',)),             # only a hand-built frame can name it
+}
+
+
+def monitor_poison(case, out):
+    cc, steps = case
+    if not isinstance(out, list) or len(out) != len(steps):
+        return ['the run did not complete normally: %r' % (out,)]
+    vs = []
+    seen_bad = []
+    for st, ans in zip(steps, out):
+        if st[0] == b'bad':
+            seen_bad.append(b'%s/%s' % (st[1], st[2]))
+            if any(a == b'served' for a in ans):
+                pass   # not the property's business
+        else:
+            for n, a in enumerate(ans):
+                if a != b'served':
+                    vs.append('an ordinary %s request for compiler %s on its own connection was answered %s after '
+                              'other connections had sent unservable requests %s'
+                              % (st[1].decode(), cc.decode(), a.decode(), [b.decode() for b in seen_bad]))
+    return vs[:3]
+
+
+def gen_poison(rng, tier):
+    out = []
+    tail = [[b'good', b'client', 3], [b'good', b'frame', 1]]
+    for how, (ccs, vias) in sorted(BAD_HOWS.items()):
+        for cc in ccs:
+            for via in vias:
+                out.append([cc, [[b'bad', how, via]] + tail])                                   # bad FIRST
+    # control order and mixtures
+    out.append([b'real', [[b'good', b'client', 1], [b'bad', b'gcc_exec_prefix', b'client'], [b'good', b'client', 2]]])
+    out.append([b'wrapper', [[b'good', b'frame', 1], [b'bad', b'broken_exe', b'frame'], [b'good', b'client', 2]]])
+    n = 60 if tier == 'thorough' else 6
+    for _ in range(n):
+        cc = rng.choice([b'real', b'wrapper'])
+        steps = []
+        for _ in range(rng.range(2, 5)):
+            if rng.chance(1, 2):
+                how = rng.choice(sorted(h for h, (ccs, _) in BAD_HOWS.items() if cc in ccs))
+                steps.append([b'bad', how, rng.choice(BAD_HOWS[how][1])])
+            else:
+                steps.append([b'good', rng.choice([b'client', b'frame']), rng.range(1, 3)])
+        steps.append([b'good', b'client', 2])
+        out.append([cc, steps])
+    return out
+
+
+def stats_poison(case, out):
+    ks = ['cc=' + case[0].decode()]
+    for st in case[1]:
+        ks.append('step=' + (b'/'.join(x for x in st if isinstance(x, bytes))).decode())
+    try:
+        for ans in out:
+            for a in ans:
+                ks.append('answer=' + a.decode())
+    except Exception:
+        ks.append('abnormal')
+    return ks
+
+
+def shrink_poison(case):
+    cc, steps = case
+    for i in range(len(steps)):
+        if len(steps) > 1:
+            yield [cc, steps[:i] + steps[i + 1:]]
+
+
 # ---------------------------------------------------------------- wiring
 
 def prebuild(rep):
@@ -534,6 +672,19 @@ def legs(tier):
             rule='1-3 connections, each a random mix of valid requests, oversized headers, undecodable frames, '
                  'truncated frames, cut into random chunks and interleaved; a bystander client compiles with real gcc '
                  'meanwhile; non-trivial = a connection was closed by the server or several connections were open'),
+        Leg('coldstart', gen_coldstart, monitor=monitor_coldstart, compare=compare_coldstart, stats=stats_coldstart,
+            impl_env=env, shards=4,
+            rule='no server on a fresh port (also right after a SIGKILLed one), k in {1,2,6,12} real clients parked on a '
+                 'barrier and released together; the model prints its start-up decision table, every observed client '
+                 '(class existing/started/addr_in_use/..., outcome) must be a row of it; the monitor demands exit 0 and '
+                 'the correct object from EVERY client'),
+        Leg('poison', gen_poison, monitor=monitor_poison, stats=stats_poison, shrink=shrink_poison, impl_env=env, shards=8,
+            nontrivial=lambda c, o: any(st[0] == b'bad' for st in c[1]),
+            rule='one fresh server per case; every kind of well-formed but unservable compile request (probe failing '
+                 'through the request environment, executable broken then repaired, missing cwd, unsupported / '
+                 'nonexistent executable) sent through the real client and as a hand-built frame FIRST, then ordinary '
+                 'requests for the same compiler (3 concurrent real clients + a hand-built frame); control orders and '
+                 'random step sequences'),
         Leg('kill', gen_kill, monitor=monitor_kill, impl_env=env, shards=8,
             stats=lambda c, o: ['phase=' + c[0].decode()],
             rule='server SIGKILLed in {compiler detection (before the first response), preprocessor, compiler} x '
